@@ -31,6 +31,8 @@ EXPLANATION += ' A64-DSITEM-HSEM, A64-DSREAD-LIGHT, RV-DSREAD-LIGHT.'
 
 EXPLANATION += ' RV-DSITEM-HSEM.'
 
+EXPLANATION += ' X86-DSITEM.'
+
 
 def run(ctx, R):
     F = astq.Facts(ctx, 'K0')
@@ -88,3 +90,4 @@ def run(ctx, R):
     rvdsread.rule_dsread_light(ctx, R)
     a64dsread.rule_dsitem(ctx, R)
     rvdsread.rule_dsitem(ctx, R)
+    x86loop.rule_dsitem(ctx, R)
